@@ -548,6 +548,9 @@ func (c *Ctx) loadAt(st *State, p *Ptr, path []int, t types.Type, sub string) *V
 	return c.wf(&Val{T: t, Term: term})
 }
 
+// maxObjSize: no slice or string is larger than 2^40 bytes/elements (memory exhaustion is outside the model).
+const maxObjSize = "1099511627776"
+
 // wf adds the typing assumptions of a loaded / fresh scalar (lazily instantiated type invariant).
 func (c *Ctx) wf(v *Val) *Val {
 	if v.Term == "" {
@@ -570,11 +573,11 @@ func (c *Ctx) wf(v *Val) *Val {
 		c.assumeAlways(and(app("<=", "0", app("loff", t)), app("<=", "0", app("llen", t)),
 			app("<=", app("llen", t), app("lcap", t)), app("<=", "0", app("lref", t)),
 			implies(eq(app("lref", t), "0"), eq(app("lcap", t), "0")),
-			app("<=", app("+", app("loff", t), app("lcap", t)), "4611686018427387904")))
+			app("<=", app("+", app("loff", t), app("lcap", t)), maxObjSize)))
 	case *types.Basic:
 		if sortOf(v.T) == "Str" {
 			c.assumeAlways(and(app("<=", "0", app("slen", v.Term)), app("<=", "0", app("soff", v.Term)),
-				app("<=", app("slen", v.Term), "4611686018427387904")))
+				app("<=", app("slen", v.Term), maxObjSize)))
 		}
 	case *types.Pointer, *types.Map:
 		c.assumeAlways(app("<=", "0", v.Term))
